@@ -37,6 +37,8 @@ SITES = {
     "trait": {"traitbelow": ["doc", "allow", "must", "cfgon", "hid"],
               "method": ["doc", "allow", "must", "cfgon", "cfgoff", "hid", "hcount"],
               "param": ["allow", "cfgon"]},
+    # the attributed module fn is `unsafe` (the delegating method is built on another path)
+    "mod_unsafe": {"modfn": ["doc", "allow", "cfgon", "cfgoff", "hid"], "param": ["allow"]},
     # an entraited trait whose attributed method is async and PROVIDED (rewritten to `fn -> impl Future { async move {..} }`)
     "trait_ad": {"traitbelow": ["doc", "allow"], "method": ["doc", "allow", "must", "cfgon", "cfgoff"], "param": ["allow"]},
     # an entraited trait with a delegation-target trait; the attributed method is PROVIDED (its body is dropped from the target trait)
@@ -86,7 +88,7 @@ def has(s, site, a):
 
 
 def fn_disabled(s):
-    site = {"fn": "below", "fnconc": "below", "mod": "modfn", "trait": "method", "trait_ad": "method", "target_d": "method", "impl": "implfn"}[s["mode"]]
+    site = {"fn": "below", "fnconc": "below", "mod": "modfn", "mod_unsafe": "modfn", "trait": "method", "trait_ad": "method", "target_d": "method", "impl": "implfn"}[s["mode"]]
     return has(s, site, "cfgoff")
 
 
@@ -116,6 +118,14 @@ def render(s):
         L.append("    pub fn f(deps: %s, %s %s) -> %s %s" % (ANY, pa, PAT[0], ret, body))
         L.append("    #[::entrait::entrait(pub Tr2)]")
         L.append("    pub fn other(deps: %s) -> i64 { 1 }" % ANY)
+        app = "::entrait::Impl::new(())"
+    elif mode == "mod_unsafe":
+        L.append("    #[::entrait::entrait(pub Tr)]")
+        L.append("    pub mod m {")
+        L += ["        " + a for a in attrs_at(s, "modfn")]
+        L.append("        pub unsafe fn f(deps: %s, %s %s) -> %s %s" % (ANY, pa, PAT[0], ret, body))
+        L.append("        pub fn other(deps: %s) -> i64 { 1 }" % ANY)
+        L.append("    }")
         app = "::entrait::Impl::new(())"
     elif mode == "mod":
         L.append("    #[::entrait::entrait(pub Tr)]")
@@ -184,7 +194,7 @@ def render(s):
         app = "::entrait::Impl::new(App)"
     L.append("    pub fn client() {")
     L.append("        let app = %s;" % app)
-    fcall = '"-".to_string()' if off else ("rt::block_on(app.f(%s)).to_string()" if mode == "trait_ad" else "app.f(%s).to_string()") % PAT[1]
+    fcall = '"-".to_string()' if off else ("rt::block_on(app.f(%s)).to_string()" if mode == "trait_ad" else "unsafe { app.f(%s) }.to_string()" if mode == "mod_unsafe" else "app.f(%s).to_string()") % PAT[1]
     L.append('        rt::out("r", format!("{}|{}", %s, app.other()));' % fcall)
     L += ["    }", "}"]
     return engine.Unit(key, "\n".join(L), 'rt::run("%s", %s::client);' % (key, key), s)
@@ -202,11 +212,11 @@ def src_attr_norm(text):
 
 def model(s):
     mode = s["mode"]
-    site = {"fn": "below", "fnconc": "below", "mod": "modfn", "trait": "method", "trait_ad": "method", "target_d": "method", "impl": "implfn"}[mode]
+    site = {"fn": "below", "fnconc": "below", "mod": "modfn", "mod_unsafe": "modfn", "trait": "method", "trait_ad": "method", "target_d": "method", "impl": "implfn"}[mode]
     fn_attrs = [src_attr_norm(a) for a in attrs_at(s, site)]
     if mode in TRAITLIKE:
         method_attrs = sorted(fn_attrs)                      # everything mirrored
-    elif mode in ("mod", "impl"):
+    elif mode in ("mod", "mod_unsafe", "impl"):
         method_attrs = sorted(a for a in fn_attrs if a.startswith("#[cfg("))   # cfg mirrored, nothing else
     else:
         method_attrs = []
@@ -227,7 +237,7 @@ def model(s):
 def generated_items(view, s):
     """-> (generated trait or None, list of generated impls) for the invocation on `f`'s container."""
     items = view.get("items", [])
-    if s["mode"] == "mod":
+    if s["mode"] in ("mod", "mod_unsafe"):
         items = [x for it in items if it["k"] == "mod" and it.get("items") for x in it["items"]]
     tname = "TrImpl" if s["mode"] == "impl" else "Tr"
     if s["mode"] == "fnconc":
@@ -309,7 +319,7 @@ def evaluate(states, report, tier):
                     want = m["method_attrs"] if f["sig"]["ident"] == "f" else []
                     if f["sig"]["ident"] == "f":
                         obs.setdefault("method_attrs", {})[where] = got
-                    if s["mode"] in ("mod", "impl"):
+                    if s["mode"] in ("mod", "mod_unsafe", "impl"):
                         # cfg attributes of the fn may (need not) be mirrored; anything else must not be copied
                         ok = all(x in want for x in got)
                     else:
